@@ -171,6 +171,8 @@ func valueMentionsField(v ssa.Value, f string, depth int) bool {
 		return valueMentionsField(x.X, f, depth+1)
 	case *ssa.Convert:
 		return valueMentionsField(x.X, f, depth+1)
+	case *ssa.BinOp:
+		return valueMentionsField(x.X, f, depth+1) || valueMentionsField(x.Y, f, depth+1)
 	case *ssa.Call:
 		for _, a := range x.Call.Args {
 			if valueMentionsField(a, f, depth+1) {
